@@ -28,7 +28,7 @@ package hessian
 // ---------------------------------------------------------------- types and class definitions (C03, C05)
 
 //@ func (*Decoder).readType
-//@   assigns @pos, @E, @declared, d.typList
+//@   assigns @pos, @E, @declared, @lastreader, d.typList
 //@   ensures [C03:type-table-grows] len(d.typList) >= len(old(d.typList)) && len(d.typList) <= len(old(d.typList)) + 1
 //@   proves  [C03,C14:type-ref-in-table] err == nil && !G.isStr(tag) ==> 0 <= index && index < len(d.typList)
 //@   proves  [C03:type-literal-registered] err == nil && G.isStr(tag) ==> len(d.typList) == len(old(d.typList)) + 1 && d.typList[len(old(d.typList))] == result0
@@ -36,7 +36,7 @@ package hessian
 //@   proves  [C03:type-ref-resolves] err == nil && !G.isStr(tag) ==> len(d.typList) == len(old(d.typList)) && index == int(G.decIntT(tag, @in, old(@pos) + 1)) && result0 == old(d.typList)[index]
 
 //@ func (*Decoder).readClassDef
-//@   assigns @pos, @E, @declared
+//@   assigns @pos, @E, @declared, @lastreader
 //@   loop 1 invariant [C14,C05:clsdef-index] 0 <= i && i <= int(count) && len(fields) == i
 //@   loop 1 invariant [C14:clsdef-consumed] i <= @pos - old(@pos)
 //@   loop 1 decreases int(count) - i
@@ -185,6 +185,7 @@ package hessian
 //@   summary @calls = old(@calls)
 //@   ensures [C01,C03:list-dispatch-typed]   flag != -1 && (byte(flag) == 'V' || byte(flag) == 0x55 || (0x70 <= byte(flag) && byte(flag) <= 0x77)) ==> @lastreader == 1 && @calls == old(@calls) + 1
 //@   ensures [C01,C03:list-dispatch-untyped] flag != -1 && (byte(flag) == 0x58 || byte(flag) == 0x57 || (0x78 <= byte(flag) && byte(flag) <= 0x7f)) ==> @lastreader == 2 && @calls == old(@calls) + 1
+//@   ensures [C03,C09:list-dispatch-binary]  flag != -1 && G.isBin(byte(flag)) ==> @lastreader == 9
 //@   ensures [C01,C03:list-dispatch-ref]     flag != -1 && byte(flag) == 0x51 ==> @lastreader == 8 && @calls == old(@calls) + 1
 //@   ensures [C06:tables-grow] len(d.clsDefList) >= len(old(d.clsDefList)) && len(d.refList) >= len(old(d.refList)) && len(d.typList) >= len(old(d.typList))
 
@@ -260,6 +261,8 @@ package hessian
 //@   proves [C01,C03,C07:data-long]  avail && G.isLong(tg) && p1 + G.longRest(tg) <= len(@in) ==> err == nil && istype(result0, "int64") && i.bv64(result0) == G.decLongT(tg, @in, p1) && @pos == p1 + G.longRest(tg)
 //@   proves [C01,C03,C08:data-double] avail && G.isDouble(tg) && p1 + G.doubleRest(tg) <= len(@in) ==> err == nil && istype(result0, "float64") && same(i.f64(result0), G.decDoubleT(tg, @in, p1)) && @pos == p1 + G.doubleRest(tg)
 //@   proves [C01,C03,C10:data-date]  avail && G.isDate(tg) && p1 + G.dateRest(tg) <= len(@in) ==> err == nil && istype(result0, "time.Time") && @pos == p1 + G.dateRest(tg)
+//@   proves [C03,C09:data-binary]      avail && G.isBin(tg) ==> @lastreader == 9
+//@   proves [C03,C09:data-string]      avail && G.isStr(tg) ==> @lastreader == 10
 //@   proves [C01,C03:data-typedlist]   avail && (tg == 'V' || tg == 0x55 || (0x70 <= tg && tg <= 0x77)) ==> @lastreader == 1
 //@   proves [C01,C03:data-untypedlist] avail && (tg == 0x58 || tg == 0x57 || (0x78 <= tg && tg <= 0x7f)) ==> @lastreader == 2
 //@   proves [C01,C03:data-typedmap]    avail && tg == 'M' ==> @lastreader == 3 && @calls == old(@calls) + 1
